@@ -333,7 +333,7 @@ func runHostile2(sp sessionSpec, res *sessionResult) error {
 			if e != nil {
 				res.SrvErr = clipStr(e.Error(), 200)
 			}
-		case <-time.After(4 * time.Second):
+		case <-time.After(8 * time.Second):
 			res.Parse = "handler-hang:" + phase
 			st := allStacks()
 			if hugeAllocation(st) {
@@ -375,7 +375,7 @@ func runHostile2(sp sessionSpec, res *sessionResult) error {
 			io.Copy(io.Discard, c2s)
 		}()
 		var rerr error
-		ok := withDeadline(5*time.Second, func() {
+		ok := withDeadline(10*time.Second, func() {
 			_, rerr = cl.Run(ctx, struct {
 				io.Reader
 				io.Writer
